@@ -19,6 +19,19 @@ def main(argv=None):
     except ImportError as e:
         print('ANALYSIS-ERROR property=%s no checker module (%s)' % (prop, e))
         return 2
+    # a wall-clock budget: an interpretation that does not come to an end on this tree is "cannot decide" (exit 2), never a hang
+    budget = int(os.environ.get('VERIF_BUDGET_S') or (900 if a.tier == 'quick' else 5400))
+
+    def out_of_time(signum, frame):
+        print('ANALYSIS-ERROR property=%s time budget of %d s exhausted: the interpretation of a scenario does not come to an end on this tree' % (prop, budget))
+        sys.stdout.flush()
+        os._exit(2)
+    try:
+        import signal
+        signal.signal(signal.SIGALRM, out_of_time)
+        signal.alarm(budget)
+    except (ImportError, ValueError, AttributeError):
+        pass
     return report.run(prop, a.tier, mod.check)
 
 
